@@ -518,6 +518,69 @@ def run_universes(ctx, universes, label):
         if len(ctx.samples) < 3 and obs[0] == b"ok" and len(obs[1]) >= 5:
             ctx.sample({"kind": "maven_rec", "root": lib.jsonable(list(root)), "universe": sx(u)[:600], "graph": sx(obs)[:600]})
     classify_stale(ctx, pending)
+    # minimise the first new violation of each clause (only ever runs when something is wrong)
+    done = set()
+    for v in ctx.violations:
+        inp = v.get("input")
+        if not isinstance(inp, dict) or "clause" not in inp or inp["clause"] in done or "minimal" in inp or len(done) >= 4:
+            continue
+        done.add(inp["clause"])
+        try:
+            u0, root0 = parse_sx(inp["arg"])
+            m = shrink(ctx, u0, tuple(root0), inp["clause"])
+            inp["minimal"] = sx([m, list(root0)])
+            out = ctx.impl("maven_rec", [inp["minimal"]])[0]
+            inp["minimal_graph"] = sx(parse_sx(out)[1])
+        except Exception as e:  # shrinking is best effort
+            inp["minimal_error"] = repr(e)
+
+
+def removals(u, root):
+    """all universes obtained from u by removing one package, version, declaration or attribute"""
+    out = []
+    for i, (nm, vl) in enumerate(u):
+        if nm != root[0]:
+            out.append(u[:i] + u[i + 1:])
+        for j, (v, deps) in enumerate(vl):
+            if not (nm == root[0] and v == root[1]):
+                out.append(u[:i] + [[nm, vl[:j] + vl[j + 1:]]] + u[i + 1:])
+            for k, d in enumerate(deps):
+                nd = deps[:k] + deps[k + 1:]
+                out.append(u[:i] + [[nm, vl[:j] + [[v, nd]] + vl[j + 1:]]] + u[i + 1:])
+                for a in range(len(d[2])):
+                    d2 = [d[0], d[1], d[2][:a] + d[2][a + 1:]]
+                    nd = deps[:k] + [d2] + deps[k + 1:]
+                    out.append(u[:i] + [[nm, vl[:j] + [[v, nd]] + vl[j + 1:]]] + u[i + 1:])
+    return out
+
+
+def shrink(ctx, u, root, clause, budget=6000):
+    """greedy delta-debugging on the implementation alone: keep removing while the same clause is still hit
+    by a hit that is not an instance of a known class"""
+    def bad(line):
+        if line.startswith('("panic"'):
+            return False
+        table, obs, raw, passes = parse_sx(line)
+        return any(h.clause == clause and not h.known for h in oracle(cur_try[0], root, obs, table, passes))
+    cur = u
+    cur_try = [u]
+    while budget > 0:
+        cands = removals(cur, root)
+        if not cands:
+            break
+        outs = ctx.impl("maven_rec", [sx([c, list(root)]) for c in cands])
+        ctx.evaluations -= len(cands)
+        budget -= len(cands)
+        nxt = None
+        for c, line in zip(cands, outs):
+            cur_try[0] = c
+            if bad(line):
+                nxt = c
+                break
+        if nxt is None:
+            break
+        cur = nxt
+    return cur
 
 
 def classify_stale(ctx, pending):
